@@ -113,7 +113,10 @@ func roundTrip(v V, o opts) (*failure, *okInfo) {
 	if p := vlib.Catch(func() {
 		out := gio.NewDataOutputX()
 		value.WriteValue(out, g)
-		enc = append([]byte(nil), out.ToByteArray()...)
+		raw := out.ToByteArray()
+		enc = append([]byte(nil), raw...)
+		ringVerify("WriteValue of a " + refcodec.ValueTagName(v.Tag))
+		ringHold("DataOutputX.ToByteArray", "the encoding of a "+refcodec.ValueTagName(v.Tag), raw) // kept as returned; the oracle goes on with its copy
 	}); p != nil {
 		return &failure{"encode-panics", fmt.Sprintf("WriteValue panics: %v", p), nil}, nil
 	}
@@ -132,6 +135,7 @@ func roundTrip(v V, o opts) (*failure, *okInfo) {
 		return &failure{"decode-panics", fmt.Sprintf("ReadValue panics on the library's own encoding: %v", p),
 			map[string]interface{}{"encoding_hex": vlib.Hex(enc)}}, nil
 	}
+	ringVerify("ReadValue of a " + refcodec.ValueTagName(v.Tag))
 	if av := in.Available(); int(av) != len(canary) {
 		return &failure{"not-consumed",
 			fmt.Sprintf("after ReadValue Available()=%d, want %d (encoding %d bytes + %d canary bytes)", av, len(canary), len(enc), len(canary)),
@@ -163,7 +167,10 @@ func roundTrip(v V, o opts) (*failure, *okInfo) {
 	if p := vlib.Catch(func() {
 		out := gio.NewDataOutputX()
 		value.WriteValue(out, d)
-		enc2 = out.ToByteArray()
+		raw := out.ToByteArray()
+		enc2 = append([]byte(nil), raw...)
+		ringVerify("WriteValue of a decoded " + refcodec.ValueTagName(v.Tag))
+		ringHold("DataOutputX.ToByteArray", "the re-encoding of a decoded "+refcodec.ValueTagName(v.Tag), raw)
 	}); p != nil {
 		return &failure{"reencode-panics", fmt.Sprintf("WriteValue of the decoded value panics: %v", p), nil}, nil
 	}
@@ -182,6 +189,7 @@ func roundTrip(v V, o opts) (*failure, *okInfo) {
 			return f, nil
 		}
 	}
+	ringVerify("the second decode, the overwritten input and the connection-backed decode of a " + refcodec.ValueTagName(v.Tag))
 	return nil, info
 }
 
@@ -706,6 +714,13 @@ var contTags = []byte{refcodec.TList, refcodec.TMap, refcodec.TIntMap}
 
 func main() {
 	c := vlib.Start("C02")
+	// one held-results case written out as a sample, before the round trips use the sample quota up
+	c.Section("held-sample", false, func() {
+		heldSample = true
+		heldCase(c, "held-sample#0", c.Rand("held-sample#0"))
+		heldSample = false
+	})
+	heldRingCtx = c
 
 	edges := edgeCases()
 	c.Cases("edge", len(edges), func(i int, r *vlib.Rand) {
@@ -783,6 +798,22 @@ func main() {
 	})
 
 	recheckElders(c, "end-of-run", nil) // the long-lived decoded values, after everything else
+	ringVerify("the end of the round-trip sections")
+	heldRingCtx = nil // the sections below hold their results themselves
+
+	// held results, live objects, multi-object order (held.go): sequentially …
+	nHeld := c.N(6000, 90000)
+	c.Section("held-fixed", false, func() { heldFixedProbes(c) })
+	c.Cases("held", nHeld, func(i int, r *vlib.Rand) {
+		heldCase(c, fmt.Sprintf("held#%d", i), r)
+	})
+	// … and the same cases from 8 goroutines at once: concurrent callers own their objects
+	nHeldPar := c.N(6000, 60000)
+	before := c.Counter("held_cases")
+	c.ParallelCases("held-parallel", nHeldPar, 8, func(i int, r *vlib.Rand) {
+		heldCase(c, fmt.Sprintf("held-parallel#%d", i), r)
+	})
+	c.Count("held_parallel_cases", c.Counter("held_cases")-before)
 
 	// ---- flush evidence ---------------------------------------------------------------------
 	for k, n := range stat {
@@ -838,6 +869,22 @@ func main() {
 		floor("purity_second_decodes", total/10, stat["purity_second_decodes"])
 		floor("purity_later_rewalks", total/10, stat["purity_later_rewalks"])
 		floor("purity_long_lived_values", 16, stat["purity_long_lived_values"])
+		// held results and live objects (counted through the Ctx: the parallel section adds to them)
+		nh := int64(nHeld + nHeldPar)
+		floor("held_cases", nh/10, c.Counter("held_cases"))
+		floor("held_parallel_cases", int64(nHeldPar)/10, c.Counter("held_parallel_cases"))
+		floor("held_results", nh/2, c.Counter("held_results"))
+		floor("held_results_DataOutputX.ToByteArray", nh/2, c.Counter("held_results_DataOutputX.ToByteArray"))
+		floor("held_reverifications", nh*5, c.Counter("held_reverifications"))
+		floor("held_object_rewalks", nh*5, c.Counter("held_object_rewalks"))
+		floor("held_objects_built", nh/4, c.Counter("held_objects_built"))
+		floor("held_objects_decoded", nh/4, c.Counter("held_objects_decoded"))
+		floor("held_multi_object_histories", nh/10, c.Counter("held_multi_object_histories"))
+		floor("held_multi_object_decodes", nh/4, c.Counter("held_multi_object_decodes"))
+		floor("held_input_overwrites", nh/10, c.Counter("held_input_overwrites"))
+		floor("held_ctor_probes", nh/40, c.Counter("held_ctor_probes"))
+		floor("held_ring_results", total/10, stat["held_ring_results"])
+		floor("held_ring_reverifications", total/2, stat["held_ring_reverifications"])
 		floor("values_depth_ge8", int64(nRandom/2000+nDeep/8), stat["values_depth_ge8"])
 		d64 := int64(nDeep-63) / 10
 		if d64 < 1 {
